@@ -1,6 +1,7 @@
 import DryocVerif.Proofs.Argon2Spec
 import DryocVerif.Proofs.GenArgon2
 import DryocVerif.Proofs.PwhashExtra
+import DryocVerif.Proofs.GenPwhash
 /-
 C09 — Argon2 (`src/argon2.rs`) and `crypto_pwhash` (`src/classic/crypto_pwhash.rs`).
 Property theorems only; helper lemmas live in `DryocVerif/Proofs/Argon2.lean` (the model
@@ -585,5 +586,29 @@ theorem translated_index_alpha_eq_rfc {inst : Instance} {pos : Position} {j1 : N
     Gen.Argon2.index_alpha inst.passes inst.memoryBlocks inst.segmentLength inst.laneLength inst.lanes
       pos.pass pos.lane pos.slice pos.index j1 sameLane = Proofs.Argon2.refIndexN inst pos j1 sameLane :=
   Proofs.GenArgon2.index_alpha_eq_refIndexN sameLane hsl hll h7 hp hj
+
+/-- tie to the source: `convert_costs` as translated = the model's conversion (divide, THEN truncate to 32 bits) -/
+theorem translated_convert_costs (opslimit memlimit : Nat) :
+    Gen.Pwhash.convert_costs opslimit memlimit = convertCosts opslimit memlimit :=
+  Proofs.GenPwhash.convert_costs_eq_model opslimit memlimit
+
+/-- tie to the source: `crypto_pwhash` and `crypto_pwhash_str` range-check the caller's 64-bit opslimit and memlimit with the
+model's bounds, and do so BEFORE converting them to 32 bits -/
+theorem translated_pwhash_guards :
+    Gen.Pwhash.crypto_pwhash_guards =
+      [(CRYPTO_PWHASH_OPSLIMIT_MIN, CRYPTO_PWHASH_OPSLIMIT_MAX, "opslimit"),
+       (CRYPTO_PWHASH_MEMLIMIT_MIN, CRYPTO_PWHASH_MEMLIMIT_MAX, "memlimit")]
+    ∧ Gen.Pwhash.crypto_pwhash_validates_before_convert = true
+    ∧ Gen.Pwhash.crypto_pwhash_str_guards = Gen.Pwhash.crypto_pwhash_guards
+    ∧ Gen.Pwhash.crypto_pwhash_str_validates_before_convert = true :=
+  ⟨Proofs.GenPwhash.crypto_pwhash_guards_eq_model.1, Proofs.GenPwhash.crypto_pwhash_guards_eq_model.2,
+   Proofs.GenPwhash.crypto_pwhash_str_guards_eq_model.1, Proofs.GenPwhash.crypto_pwhash_str_guards_eq_model.2⟩
+
+/-- tie to the source: the memory geometry of `argon2_hash` (m′ = 4p·⌊max(m, 8p)/4p⌋ and the segment length) as translated is the
+model's whenever the model's checked arithmetic does not panic -/
+theorem translated_memory_geometry (mCost parallelism mb sl : Nat)
+    (h : memoryGeometry mCost parallelism = .ok (mb, sl)) :
+    Gen.Pwhash.memory_geometry mCost parallelism = (mb, sl) :=
+  Proofs.GenPwhash.memory_geometry_eq_model mCost parallelism mb sl h
 
 end DryocVerif.Properties.C09
